@@ -54,6 +54,18 @@ TEXT = {
  "C09": dict(tech="rapid fault-sequence generation with forced log compaction on a real 3-node cluster; convergence oracle after state transfer and after later insertions",
    text="Generated histories take a follower down, insert, force snapshots with TrailingLogs=0 on the rest (so the missed entries are gone), bring back the follower and/or a brand-new node, and require C06's oracle to hold after the state transfer and again after more insertions (optionally after leadership transfer / restart of the restored node). Exploration.",
    note="Compaction is verified to have happened (class 'compacted'); only such cases count as non-trivial. The gap-refusal clause is exercised through the same path (FetchSnapshot validate function); direct FetchSnapshot fuzzing is in thorough when built.", ref="§5 C09"),
+ "C17": dict(tech="rapid-generated arrival patterns through the real concurrent sender; multiset-conservation oracle; signature mutation (every field, every signature bit)",
+   text="Generated burst/gap arrival patterns are fed to the real server.Sender (1-4 concurrent batchers, shortened flush interval) on a never-started agent; the multiset emitted must equal the multiset fed, batches respect the size bound, every signature verifies, and no single-field or single-bit alteration of a signed snapshot verifies. Exploration; schedules are the runtime's.",
+   note="Oracle is schedule-independent (cannot flake); a loss that needs one precise interleaving may be missed. Encode/sign error branches are unreachable from outside.", ref="§5 C17"),
+ "C18": dict(tech="rapid redelivery patterns on the real BatchProcessor; real memberlist networks on loopback with TTL / routing oracle; model-based + race-detector testing of Topology",
+   text="Four tiers: generated redelivery multiplicities/orders must create tasks at most once per batch; generated TTLs and roles on real loopback gossip networks must show TTL decreasing per hop, TTL 0 never sent, at most/exactly one peer per role, no self-delivery and terminating dissemination with forwarding on; Topology is checked against a sequential model and under concurrent update/route goroutines with the race detector. Exploration.",
+   note="Sender identity comes from payload ids (Message.From arrives nil); memberlist is trusted; negative TTLs are not generated.", ref="§5 C18"),
+ "C19": dict(tech="rapid tampering operators (gossiped snapshot / store / log answer) against the real agent task factories with a ground-truth verdict computed by the harness; redelivery patterns for the publisher",
+   text="The real auditor, monitor and publisher task factories run against an honest log served by the real API handlers and client; each generated batch carries one alteration or none; the harness computes the ground-truth verdict from the published material: no alert without tampering, an alert whenever that verdict is false; the publisher must forward each distinct signature exactly once under generated redelivery patterns. Exploration.",
+   note="A fresh client per batch (a failed request marks the only endpoint dead in the client); tasks that cannot fetch their inputs need not alert (statement is about proofs that fail to verify).", ref="§5 C19"),
+ "C20": dict(tech="rapid stateful model-based testing of the client topology (hook) + black-box sequences against real API handlers over a scripted cluster",
+   text="Tier 1: generated Update/MarkAsDead/MarkAsAlive/read sequences on the client's topology with roles from the model: selections must be alive, permitted, exhaustive and fair. Tier 2: the real HTTPClient with generated options against httptest servers running the real apihttp handlers over a scripted leader/fault state: insertions only reach believed leaders, successful insertions were executed by the leader, reads respect the preference, leader moves are followed via redirect/discovery, calls are bounded in time and requests. Exploration.",
+   note="Update() inputs are distinct secondaries not repeating the primary; servers speak well-formed HTTP.", ref="§5 C20"),
 }
 
 NA = {}
